@@ -224,6 +224,7 @@ def inject(text, anns, ops=None):
     report = {'loop_contracts': [], 'ops': []}
     toks = tokenize(text)
     inserts = []  # (offset, text)
+    appended = []
     for fname, rec in sorted(anns.items()):
         defs = find_function_defs(toks, fname)
         if len(defs) != 1:
@@ -265,6 +266,27 @@ def inject(text, anns, ops=None):
                 mt = toks[mdefs[0][0]]
                 inserts.append((mt[2], ('__RENAME__', len(op[3]), old)))
             report['ops'].append('definition of %s renamed to %s (a model in /verif/models takes its place)' % (old, new))
+        elif op[0] == 'slice_cond':
+            # ('slice_cond', function, regex locating 'if (' of the condition inside the function, prototype):
+            # the parenthesised condition is copied into a new function appended to the TU
+            _, fname, start_re, proto = op
+            defs = find_function_defs(toks, fname)
+            if len(defs) != 1:
+                raise StageError('slice_cond %s: %d definitions' % (fname, len(defs)))
+            b0, b1 = toks[defs[0][1]][2], toks[defs[0][2]][2]
+            ms = list(re.finditer(start_re, text[b0:b1]))
+            if len(ms) != 1:
+                raise StageError('slice_cond %s: marker found %d times (want 1)' % (fname, len(ms)))
+            po = b0 + ms[0].end() - 1  # offset of the '(' that opens the condition
+            ti = next(i for i, t in enumerate(toks) if t[2] == po)
+            if toks[ti][1] != '(':
+                raise StageError('slice_cond %s: marker does not end at (' % fname)
+            tj = _match_forward(toks, ti, '(', ')')
+            cond = text[toks[ti][2]:toks[tj][2] + 1]
+            cond = ' '.join(l for l in cond.splitlines() if not l.startswith('#'))
+            appended.append('\n%s { return %s; }\n' % (proto, cond))
+            report['ops'].append('condition of %s (%s...) copied into generated function %s; the statements it guards are dropped'
+                                 % (fname, start_re[:40], proto))
         else:
             raise StageError('unknown staging op %r' % (op,))
     inserts.sort(key=lambda x: x[0], reverse=True)
@@ -274,6 +296,7 @@ def inject(text, anns, ops=None):
             text = text[:off] + new + text[off + ln:]
         else:
             text = text[:off] + ins + text[off:]
+    text += ''.join(appended)
     return text, report
 
 
